@@ -1518,7 +1518,7 @@ class DeviceCommunicationControlRequest(ConfirmedRequestSequence):
     serviceChoice = 17
     sequenceElements = \
         [ Element('timeDuration', Unsigned, 0, True)
-        , Element('enableDisable', DeviceCommunicationControlRequestEnableDisable, 1, True)
+        , Element('enableDisable', DeviceCommunicationControlRequestEnableDisable, 1)
         , Element('password', CharacterString, 2, True)
         ]
 
